@@ -238,31 +238,40 @@ def check(ctx, run):
             if has_end:
                 run.ob("R3", inst, f.site, True, witness="stops at the end of the operand")
             elif cls in EXC and not printable_scan:
-                # frozen exception: verify every path that constructs the failure
-                sites = []
-                okx = True
-                # inside the constructor the scan is only reached with both operands non-null
+                # frozen exception: every folded operand case of the assert entry points that builds this failure has
+                # operands that differ under the constructor's comparison, or one operand NULL (guarded inside the ctor)
                 pos = f.where_enclosing(eq) or f.where_enclosing(cond)
-                inner = facts_at(f, pos)
-                guarded_inside = ("expected", True) in inner and ("actual", True) in inner
-                for g in prog.functions.values():
-                    if not g.file.startswith("src/"):
-                        continue
-                    if not any(c.get("ctor") and c["ctor"]["mn"] == f.mn for c in g.calls()):
-                        continue
-                    stopfn = lambda ff, n: n["k"] in CALL_KINDS and (prog.callee_name(ff, n) or "") == "UtestShell::failWith"
-                    for p in enumerate_paths(g, stop=stopfn):
-                        made = [c for c in path_calls(prog, g, p) if c.get("ctor") and c["ctor"]["mn"] == f.mn]
-                        if not made:
+                inner = facts_at(f, pos, subst=True)
+                pn_ = [q["name"] for q in f.params]
+                guarded_inside = any(k in pn_ and v for k, v in inner) and len([1 for k, v in inner if k in pn_ and v]) >= 2
+                sites, okx = [], True
+                from .C03 import assert_family
+                fold_assert, TABLE = assert_family(prog)
+                key = {"StringEqualFailure": (lambda t: t), "StringEqualNoCaseFailure": (lambda t: t.lower()), "BinaryEqualFailure": (lambda t: t)}[cls]
+                try:
+                    for name, gen in sorted(TABLE.items()):
+                        fs_ = prog.fns("UtestShell::" + name)
+                        if len(fs_) != 1:
                             continue
-                        v = {k.replace("(SimpleString)", ""): x for k, x in p.val().items()}
-                        one_null = (v.get("expected") is False or v.get("actual") is False) and guarded_inside
-                        differ = any(x and k.startswith(("SimpleString::StrCmp(expected, actual)", "SimpleString::StrNCmp(expected, actual", "SimpleString::MemCmp(expected, actual")) for k, x in v.items()) \
-                            or any((not x) and "equalsNoCase" in k for k, x in v.items())
-                        sites.append({"function": g.qn, "path": short(p.describe(g), 90), "one_operand_null": one_null, "operands_known_to_differ": differ})
-                        if not (one_null or differ):
-                            okx = False
-                run.ob("R3", inst + " (frozen exception)", f.site, okx and bool(sites), witness={"reason": EXC[cls], "construction_paths": sites},
+                        for vals, want, desc in gen(fs_[0]):
+                            log, ctor = fold_assert(fs_[0], vals)
+                            if cls not in getattr(fold_assert, "last_classes", []):
+                                continue
+                            e_, a_ = vals[0], vals[1]
+                            te = e_[1] if isinstance(e_, tuple) else None
+                            ta = a_[1] if isinstance(a_, tuple) else None
+                            n_ = vals[2] if name in ("assertCstrNEqual", "assertBinaryEqual") and len(vals) > 2 else None
+                            one_null = (te is None or ta is None) and guarded_inside
+                            differ = te is not None and ta is not None and key(te[:n_] if n_ is not None else te) != key(ta[:n_] if n_ is not None else ta)
+                            if not (one_null or differ):
+                                okx = False
+                                sites.append({"function": name, "operands": desc, "one_operand_null": one_null, "operands_differ": differ})
+                            elif len(sites) < 6:
+                                sites.append({"function": name, "operands": desc})
+                except Unknown as u:
+                    run.broke("C14.R3: the assert entry points cannot be folded: %s" % u)
+                    continue
+                run.ob("R3", inst + " (frozen exception)", f.site, okx and bool(sites), witness={"reason": EXC[cls], "constructing_cases": sites[:8]},
                        what="" if okx and sites else "the failure is also constructed where the operands may be equal: the scan would run past both")
             else:
                 run.ob("R3", inst, f.site, False, witness=render(f, cond),
